@@ -125,7 +125,10 @@ def build_skeleton(sk):
             inside0 = descendants(parents, values[0][0])
             if realized[1] and not realized[1] <= inside0:
                 legal = False
-    return {"a": a, "c": cond}, {"o": res[0]}, legal
+    extra = None
+    if 0 in created and not values[0][1] and realized[0]:
+        extra = created[0]          # body-independent value: may also be requested directly in a second build
+    return {"a": a, "c": cond}, {"o": res[0]}, legal, extra
 
 
 # ------------------------------------------------------------------------------------------------ direct oracle
@@ -215,10 +218,14 @@ def run(run: Run) -> int:
     cases = []
     for sk in sks:
         try:
-            ins, outs, legal = build_skeleton(sk)
+            ins, outs, legal, extra = build_skeleton(sk)
         except Exception as e:  # construction itself failed (not build): skip, counted
             continue
-        cases.append(B.Case(ins, outs, False, {"skeleton": [list(sk[0]), list(sk[1]), [[c, d, list(u)] for c, d, u in sk[2]]], "legal": legal}))
+        meta = {"skeleton": [list(sk[0]), list(sk[1]), [[c, d, list(u)] for c, d, u in sk[2]]], "legal": legal}
+        cases.append(B.Case(ins, outs, False, meta))
+        if extra is not None and legal and len(cases) % 3 == 0:
+            # the same Vars built again in another combination: the movable value is now also a model output
+            cases.append(B.Case(ins, {"o": outs["o"], "x": extra}, False, dict(meta, second_build=True)))
     n_skel = len(cases)
     g = B.GenX(run.rng, leak_p=0.5, features=("func",))
     for _ in range(150 if quick else 2500):
@@ -235,8 +242,7 @@ def run(run: Run) -> int:
         probs = []
         if c.model_proto is not None:
             probs += placement_oracle(c.model_proto)
-            if "skeleton" in c.meta or not any(isinstance(v._op, (B._Inline,)) for v in []):
-                probs += count_oracle(c) if "skeleton" in c.meta else []
+            probs += count_oracle(c) if "skeleton" in c.meta else []
             if "skeleton" in c.meta and not c.meta["legal"]:
                 probs.append("a value depending on a Loop body's argument is used outside that body, but build returned a model")
         elif "skeleton" in c.meta and c.meta["legal"]:
